@@ -23,6 +23,8 @@ var c04DenyRules = [][]string{
 	{`denied`, `-^tk[0-9]+z-fine\.denied\.example$`},
 }
 
+var c04UniquePort = regexp.MustCompile(`:1[0-9]{4}$`)
+
 func genC04Host(t *tape.Tape, tok string, uniq int) string {
 	port := fmt.Sprint(10000 + uniq)
 	withPort := func(h string) string {
@@ -118,6 +120,7 @@ func genC04(t *tape.Tape, tier string) any {
 			b := a + 1 + t.Intn(24-a)
 			c.TimeFrame = append(c.TimeFrame, fmt.Sprintf("%s/%d-%d", d, a, b))
 		}
+		c.TZMin = []int{0, 330, 345, -210, 60, -720}[t.Pick(4, 2, 1, 1, 1, 1)]
 		c.Start = time.Duration(t.Intn(72)) * time.Hour
 		if t.Chance(1, 3) {
 			c.Start += time.Hour - time.Nanosecond // just before an hour boundary
@@ -130,10 +133,18 @@ func genC04(t *tape.Tape, tier string) any {
 		c.MITM = true
 	}
 	nConns := 1 + t.Pick(5, 3, 1)
+	// several clients presenting different well-formed credentials at the same moment (one shared authenticator)
+	storm := c.AuthUser != "" && t.Chance(1, 5)
+	if storm {
+		nConns = 4 + t.Intn(3)
+	}
 	tok := 0
 	for ci := 0; ci < nConns; ci++ {
 		var pc polConn
 		n := 1 + t.Pick(2, 4, 3, 2)
+		if storm {
+			n = 3 + t.Intn(3)
+		}
 		if c.MITM && t.Chance(2, 3) {
 			pc.MITMHost = []string{"origin.example:443", "other.example:443"}[t.Intn(2)]
 			if c.AuthUser != "" {
@@ -164,7 +175,17 @@ func genC04(t *tape.Tape, tier string) any {
 			if r.Kind == "http" && (r.Method == "POST" || r.Method == "PUT") || (r.Kind == "http" && t.Chance(1, 8) && r.Method != "HEAD") {
 				r.Body = 90 + t.Intn(300)
 			}
-			if c.AuthUser != "" {
+			if storm {
+				r.Host = r.Token + ".ok.example"
+				if r.Kind == "connect" {
+					r.Host += ":80"
+				}
+				if (ci+i)%2 == 0 {
+					r.ProxyAuth = []string{"Basic " + b64(c.AuthUser+":"+c.AuthPass)}
+				} else {
+					r.ProxyAuth = []string{"Basic " + b64(c.AuthUser+":"+c.AuthPass+[]string{"x", "1", "-wrong"}[t.Intn(3)])}
+				}
+			} else if c.AuthUser != "" {
 				r.ProxyAuth = genC04Auth(t, c.AuthUser, c.AuthPass)
 				if len(r.ProxyAuth) > 0 {
 					r.PAName = []string{"Proxy-Authorization", "proxy-authorization", "PROXY-AUTHORIZATION"}[t.Pick(4, 1, 1)]
@@ -174,7 +195,7 @@ func genC04(t *tape.Tape, tier string) any {
 				r.ProxyAuth = []string{"Basic " + b64("stray:creds")}
 			}
 			if timeOn && t.Chance(1, 3) {
-				r.Sleep = []time.Duration{time.Nanosecond, time.Minute, time.Hour, 7 * time.Hour, 24 * time.Hour, time.Hour - time.Nanosecond}[t.Intn(6)]
+				r.Sleep = []time.Duration{time.Nanosecond, time.Minute, time.Hour, 7 * time.Hour, 24 * time.Hour, time.Hour - time.Nanosecond, 20 * time.Minute, 31 * time.Minute, 44 * time.Minute}[t.Intn(9)]
 			}
 			r.HTTP10 = t.Chance(1, 12) && r.Kind == "http"
 			pc.Reqs = append(pc.Reqs, r)
@@ -382,7 +403,7 @@ func oracleC04(w *polWorld, s *sut.SUT) {
 		if nodes := w.nodesHolding(r.Token); len(nodes) > 0 {
 			env.Fail("access-leak-bytes", feature, "%s was refused (status %d) yet its token appears in bytes received by %v", r.Token, st, nodes)
 		}
-		if strings.Contains(r.Host, r.Token) || strings.Contains(r.Host, fmt.Sprint(":1")) {
+		if strings.Contains(r.Host, r.Token) || c04UniquePort.MatchString(r.Host) { // an address no other request of the run uses
 			for _, d := range env.Net.Dials {
 				if d.From == "sut" && strings.EqualFold(d.Host, r.Host) {
 					env.Fail("access-leak-dial", feature, "%s was refused (status %d) yet the proxy opened a connection to %s (%s)", r.Token, st, d.Host, d.Outcome)
